@@ -182,7 +182,7 @@ func Log(d Number) Number {
 //	Sin(±Inf) = NaN
 //	Sin(NaN) = NaN
 func Sin(d Number) Number {
-	if d.Real == 0 {
+	if d.Real == 0 && d.E1E2mag == 0 {
 		return Number{
 			Real:    d.Real,
 			E1mag:   d.E1mag,
@@ -225,7 +225,7 @@ func Cos(d Number) Number {
 //	Tan(±Inf) = NaN
 //	Tan(NaN) = NaN
 func Tan(d Number) Number {
-	if d.Real == 0 {
+	if d.Real == 0 && d.E1E2mag == 0 {
 		return Number{
 			Real:    d.Real,
 			E1mag:   d.E1mag,
@@ -251,7 +251,7 @@ func Tan(d Number) Number {
 //	Asin(±1) = (±Inf+Infϵ₁+Infϵ₂±Infϵ₁ϵ₂)
 //	Asin(x) = NaN if x < -1 or x > 1
 func Asin(d Number) Number {
-	if d.Real == 0 {
+	if d.Real == 0 && d.E1E2mag == 0 {
 		return Number{
 			Real:    d.Real,
 			E1mag:   d.E1mag,
@@ -327,7 +327,7 @@ func Acos(d Number) Number {
 //	Atan(±0) = (±0+Nϵ₁+Nϵ₂∓0ϵ₁ϵ₂)
 //	Atan(±Inf) = (±Pi/2+0ϵ₁+0ϵ₂∓0ϵ₁ϵ₂)
 func Atan(d Number) Number {
-	if d.Real == 0 {
+	if d.Real == 0 && d.E1E2mag == 0 {
 		return Number{
 			Real:    d.Real,
 			E1mag:   d.E1mag,
